@@ -125,6 +125,11 @@ def check(ctx: Ctx) -> str:
 
     ctx.rule("R4", "namespace ownership: _from_namespace writes the loading environment into the namespace it is given, so every namespace handed to it is fresh per load - a dict literal (from_code) or the dict of a module imported for this load and removed from sys.modules; a lookup of an already loaded module under the name the import system binds it to would share one namespace between environments")
     _namespace_freshness(ctx, repo, ld)
+    # a precompiled template has no uptodate callable and counts as current: it is loaded once,
+    # like its source twin (rule owned by C25)
+    from . import c25
+
+    ctx.run_imported("C25", {"R3"}, c25.check)
     return __doc__ or ""
 
 
